@@ -129,6 +129,24 @@ PROPERTIES = {
         quick=dict(seeds=20, groups=28),
         thorough=dict(seeds=400, groups=None),
     ),
+    "C09": dict(
+        title="conservation along histories of steps: spatial mean of every conservation-form stepper (orders 1-4, N incl. multiples of 6), no work by the convective terms, constant equilibria -- invariant oracle",
+        select=lambda k, m: False,
+        quick=dict(seeds=16, groups=None, crash_points=24, switch_points=16),
+        thorough=dict(seeds=300, groups=None),
+    ),
+    "C10": dict(
+        title="incompressibility: Leray / make_incompressible (divergence, idempotence, agreement) and the 3D velocity steppers along histories of steps -- invariant oracle",
+        select=lambda k, m: k.startswith(("make-incompressible", "nonlin:Leray")),
+        quick=dict(seeds=16, groups=None, crash_points=24, switch_points=16),
+        thorough=dict(seeds=300, groups=None),
+    ),
+    "C11": dict(
+        title="no amplification: L2 norm along histories of steps of every single-field linear stepper (broadband states, three dt, 1-3 D) -- invariant oracle",
+        select=lambda k, m: False,
+        quick=dict(seeds=16, groups=None, crash_points=24, switch_points=16),
+        thorough=dict(seeds=300, groups=None),
+    ),
     "C12": dict(
         title="Kolmogorov steppers, the generic vorticity stepper with injection (several forced modes and scales per grid), ForcedStepper",
         select=lambda k, m: cls(k) in KOLMOGOROV or k.startswith(("forced", "shared-forced", "rollout-aux", "nonlin:VorticityKolmogorov", "nonlin:Projected3dKolmogorov")),
